@@ -464,24 +464,18 @@ fn establish(layers: &Value, game: &str, lang: &str, events: &mut Vec<Value>) ->
     }
 }
 
-/// C14: the explicit-path twin of a localized call: same call, localized = false, on the path that the
-/// filesystem's own localizer (checked string-for-string against Localize.tla elsewhere) maps the request to.
-fn twin_of(sys: &Sys, ev: &Value) -> Option<Value> {
-    if !ev["loc"].as_bool().unwrap_or(false) {
+/// C14: the explicit-path twin of a localized call: the same call with localized = false on the path that the
+/// SPECIFICATION maps the request to (ev["twin"], printed by TLC: Localize with the localizer Cfg(game) prescribes).
+fn twin_of(ev: &Value) -> Option<Value> {
+    if !ev["loc"].as_bool().unwrap_or(false) || !ev["twin"]["some"].as_bool().unwrap_or(false) {
         return None;
     }
-    let raw = bytes_to_string(&ev["raw"]);
-    let lang = sys.fs.language();
-    let mapped = match catch(|| sys.fs.localizer().localize(&raw, &lang)) {
-        Ok(Ok(s)) => s,
-        _ => return None,
-    };
-    let comps: Vec<String> = mapped.split('/').filter(|c| !c.is_empty()).map(|c| c.to_string()).collect();
     let mut t = ev.clone();
     t["loc"] = json!(false);
-    t["raw"] = bytes_to_json(mapped.as_bytes());
-    t["p"] = json!({"c": comps_json(&comps), "t": mapped.ends_with('/') && !comps.is_empty()});
+    t["raw"] = ev["twin"]["raw"].clone();
+    t["p"] = ev["twin"]["p"].clone();
     t["is_twin"] = json!(true);
+    t.as_object_mut().unwrap().remove("twin");
     Some(t)
 }
 
@@ -490,6 +484,7 @@ fn run_events(w: &World, sys: &Sys, mut snap: Value, evs: &[Value], events: &mut
         let mut rec = ev.as_object().unwrap().clone();
         // "then": calls to issue on the same directories right after this one (read-back after a write)
         let then = rec.remove("then");
+        rec.remove("twin");
         let ev = &Value::Object(rec.clone());
         for (k, v) in apply(sys, ev) {
             rec.insert(k, v);
@@ -549,7 +544,7 @@ fn replay_mode(cases_path: &str, out_path: &str, from: usize) {
                 if let Some((w, sys, snap)) = establish(&c["layers"], game, lang, &mut events) {
                     run_events(&w, &sys, snap, std::slice::from_ref(ev), &mut events);
                     if twins {
-                        twin = twin_of(&sys, ev);
+                        twin = twin_of(ev);
                     }
                 }
                 if let Some(t) = twin {
@@ -562,7 +557,7 @@ fn replay_mode(cases_path: &str, out_path: &str, from: usize) {
             for ev in evs {
                 snap = run_events(&w, &sys, snap, std::slice::from_ref(ev), &mut events);
                 if twins {
-                    if let Some(t) = twin_of(&sys, ev) {
+                    if let Some(t) = twin_of(ev) {
                         snap = run_events(&w, &sys, snap, std::slice::from_ref(&t), &mut events);
                     }
                 }
@@ -806,6 +801,19 @@ fn build_typed_world(rng: &mut Rng, game: &str, pool: &mut Pool) -> World {
     let nl = rng.range(1, 3);
     let w = World::create(nl);
     let fx = typed_fixtures();
+    // always there, at fixed unlocalized paths: the archives of both configurations, plain and as LZ13 / LZ10 streams
+    // (the prelude of a typed run reads them, which pins endianness, text format and compression of every game)
+    for (name, bytes) in fx.iter().take(4) {
+        let li = rng.below(nl);
+        let dir = w.layers[li].join("t");
+        std::fs::create_dir_all(&dir).unwrap();
+        std::fs::write(dir.join(name), bytes).unwrap();
+        std::fs::write(dir.join(format!("{}.lz", name)), LZ13CompressionFormat {}.compress(bytes).unwrap()).unwrap();
+        std::fs::write(dir.join(format!("{}.cmp", name)), LZ10CompressionFormat {}.compress(bytes).unwrap()).unwrap();
+        for suf in ["", ".lz", ".cmp"] {
+            pool.paths.push(vec!["t".to_string(), format!("{}{}", name, suf)]);
+        }
+    }
     for (name, bytes) in &fx {
         for variant in 0..4 {
             if rng.chance(1, 3) {
@@ -837,6 +845,9 @@ fn build_typed_world(rng: &mut Rng, game: &str, pool: &mut Pool) -> World {
                 _ => rel.push(fname),
             }
             let full = w.layers[li].join(rel.join("/"));
+            if full.exists() {
+                continue;
+            }
             std::fs::create_dir_all(full.parent().unwrap()).unwrap();
             std::fs::write(&full, &content).unwrap();
             pool.paths.push(rel);
@@ -864,9 +875,11 @@ fn record_mode(out_path: &str, runs: usize, len: usize, from: usize) {
             }
             return emit(out_path, i, events);
         }
-        let game = *rng.pick(&GAMES);
-        let lang = *rng.pick(&LANGS);
         let typed_run = i % 4 == 3 && profile != "c13";
+        // typed runs go through the five games in turn, so that every game's configuration is exercised even in
+        // the quick tier
+        let game = if typed_run { GAMES[(i / 4) % GAMES.len()] } else { *rng.pick(&GAMES) };
+        let lang = *rng.pick(&LANGS);
         let mut pool = Pool { paths: Vec::new() };
         let w = if typed_run { build_typed_world(&mut rng, game, &mut pool) } else { build_random_world(&mut rng, &mut pool) };
         let mut snap = snapshot(&w);
@@ -878,6 +891,17 @@ fn record_mode(out_path: &str, runs: usize, len: usize, from: usize) {
             }
         };
         events.push(json!({"op": "reset", "game": game, "lang": lang, "res": ok(json!([])), "same": false, "post": snap.clone()}));
+        if typed_run {
+            // prelude: both archive kinds of both configurations, plain and under both compressed suffixes
+            let mut pre = Vec::new();
+            for name in ["binle.bin", "binbe.bin", "txtle.bin", "txtbe.bin"] {
+                for suf in ["", ".lz", ".cmp"] {
+                    let op = if name.starts_with("bin") { "read_archive" } else { "read_text_archive" };
+                    pre.push(mk_event(op, &["t".to_string(), format!("{}{}", name, suf)], false, false));
+                }
+            }
+            snap = run_events(&w, &sys, snap, &pre, &mut events);
+        }
         for _ in 0..len {
             let loc = rng.chance(2, 5);
             // MVH_PROFILE shifts the mix of calls: c12 = no listings, c13 = mostly listings (with mutations in between)
